@@ -74,7 +74,9 @@ for _i, _v in enumerate(VARIANTS):
 for _i, _v in enumerate(VARIANTS):
     _v["G"] = _st([_f("cells", {"k": "a", "t": {"k": "a", "t": U8 if _i != 1 else U16, "len": ["fixed", 2]}, "len": ["fixed", 3]}),
                    _f("corner", {"k": "a", "t": {"k": "a", "t": {"k": "ref", "n": "In"}, "len": ["fixed", 2]}, "len": ["fixed", 2]}), _f("g", U8)])
-UNION_TEXT = "union U { uint8 arr[4]; uint32 d; struct { uint16 lo; uint8 v[2]; } s; };\nstruct H { uint8 h; U u; uint8 t[2]; };\n"
+UNION_TEXT = ("union U { uint8 arr[4]; uint32 d; struct { uint16 lo; uint8 v[2]; } s; };\nstruct H { uint8 h; U u; uint8 t[2]; };\n"
+              "struct DV { uint8 lead; uint8 total; uint8 width; uint8 data[lead + total / width]; uint8 tail; };\n"
+              "struct DV2 { uint8 lead; uint8 total; uint8 width; uint8 data[(total % width) * 2 + lead]; uint8 tail; };\n")
 K_OF_VARIANT = [1, 2, 3]
 
 
@@ -101,7 +103,7 @@ def history(draw):
     n = draw(st.integers(8, 40))
     ninst = 0
     for _ in range(n):
-        k = draw(st.sampled_from(["default", "default", "kw", "kwpartial", "pospartial", "parse", "parse", "scratch-union", "set", "mutate", "mutate", "mutate", "dump", "flip", "loadmore", "alias", "failparse", "fresh", "enumop", "enumop", "lend", "extend"]))
+        k = draw(st.sampled_from(["default", "default", "kw", "kwpartial", "pospartial", "parse", "parse", "scratch-union", "set", "mutate", "mutate", "mutate", "dump", "flip", "loadmore", "alias", "failparse", "fresh", "enumop", "enumop", "lend", "extend", "failexpr"]))
         c = draw(st.integers(0, ncs - 1))
         tname = draw(st.sampled_from(["P", "P", "Q", "W", "O1", "A", "QK", "G", "G"]))
         if k in ("default", "kw", "kwpartial", "pospartial", "parse"):
@@ -119,6 +121,8 @@ def history(draw):
             ops.append([k, c, tname])
         elif k == "extend":
             ops.append(["extend", c, draw(st.booleans()), draw(st.booleans()), draw(st.integers(1, 255))])
+        elif k == "failexpr":
+            ops.append(["failexpr", c, draw(st.sampled_from(["DV", "DV2"])), draw(st.integers(0, 5)), draw(st.integers(0, 9)), draw(st.integers(1, 4)), draw(st.integers(0, 5))])
         elif k == "lend":
             ops.append(["lend", c, draw(st.sampled_from(["uint16", "uint32", "int64", "E", "F", "In", "P", "G", "U"])), draw(st.integers(0, 2)), draw(st.binary(min_size=48, max_size=48)).hex()])
     return {"objs": objs, "ops": ops}
@@ -354,6 +358,20 @@ def run_case(case, ctx):
             r = lib(touch)
             if isinstance(r, Err):
                 raise Violation("operation-raised", f"step {step} changing a default union in place: {r}; history {trace}", r.where)
+        elif k == "failexpr":
+            # a parse that fails INSIDE the evaluation of a count (division by a zero the data supplies), followed by a parse of
+            # a well-formed record with the same type: the second one is what it would be without the first
+            _, c, tn, lead, total, width, badlead = op
+            Tv = getattr(objs[c]["cs"], tn)
+            bad = lib(Tv, bytes([badlead, total, 0]) + bytes(40))
+            if not isinstance(bad, Err):
+                raise Violation("operation-raised", f"step {step}: {tn} with width 0 returned {bad!r} (a count dividing by zero); history {trace}")
+            n_ = lead + total // width if tn == "DV" else (total % width) * 2 + lead
+            rec = bytes([lead, total, width]) + bytes(range(1, n_ + 1)) + b"\xEE"
+            s_ = io.BytesIO(rec + b"\x55" * 8)
+            good = lib(Tv, s_)
+            if isinstance(good, Err) or list(good.data) != list(range(1, n_ + 1)) or good.tail != 0xEE or s_.tell() != len(rec):
+                raise Violation("parse-depends-on-history", f"step {step}: after a {tn} parse failed with {bad} inside its count expression, {tn}({rec.hex()}) gave {good if isinstance(good, Err) else libside.cplain(good)!r} at {s_.tell()}; expected {n_} data elements, tail 0xEE, {len(rec)} bytes; history {trace}")
         elif k == "extend":
             # a structure that is (or is not) used first and then grows array / nested-structure / row members through the
             # public API: members added later are as private to every instance as the ones it was born with
